@@ -9,6 +9,7 @@ trace in exactly the format the Lean driver prints (`dsl.model_line` / `dsl.pars
 """
 import fractions
 import gc
+import os
 import struct
 
 from common import import_usim
@@ -23,6 +24,15 @@ def t2s(x, kind='rat'):
 
 TIME_POS = {'sleep': [1], 'after': [1], 'before': [1], 'moment': [1], 'delay': [1], 'start': [1],
             'transfer': [2, 3], 'interval': [1], 'delayiter': [1], 'nestedrun': [1], 'pipes': 'all'}
+
+
+def close_unstarted(coros):
+    """coroutines the library never started would only produce 'never awaited' warnings; the ones
+    it did start are left alone - whether they are stopped is what the checks observe"""
+    import inspect
+    for c in coros:
+        if inspect.getcoroutinestate(c) == inspect.CORO_CREATED:
+            c.close()
 
 
 def tpair(x, kind='rat'):
@@ -524,11 +534,44 @@ class Interp:
             coros = [self.task_body(hd, pr[1:]) for hd, pr in zip(holders, s[1:])]
             # collect() spawns the activities in argument order inside its own scope: labels follow
             base = self.task_count
+            self.emit(label, 'cbegin', [len(holders), 1000 + base])
             for i, hd in enumerate(holders):
                 hd['label'] = 1000 + base + i
             self.pending_collect = (base, len(holders), holders)
             results = await self.collect_call(collect, coros, holders)
             self.emit(label, 'collected', [0 if v is None else v for v in results])
+        elif h == 'first':
+            # ['first', count|None, break_after|None, ['progs', prog...], body...]
+            from usim import first
+            count, brk, progs, body = s[1], s[2], s[3][1:], s[4:]
+            n = len(progs)
+            cnt = n if count is None else count
+            self.emit(label, 'fbegin', [n, cnt, -1 if brk is None else brk, -1 if cnt > n else 1000 + self.task_count])
+            holders = [{} for _ in progs]
+            coros = [self.task_body(hd, pr[1:]) for hd, pr in zip(holders, progs)]
+            if cnt <= n:
+                # first() spawns one monitor task per activity, in argument order, when the
+                # iteration starts
+                base = self.task_count
+                self.task_count += n
+                for i, hd in enumerate(holders):
+                    hd['label'] = 1000 + base + i
+                    self.labels.add(hd['label'])
+            k = 0
+            try:
+                async for winner in first(*coros, count=count):
+                    self.emit(label, 'got', [0 if winner is None else winner])
+                    await self.block(label, body)
+                    k += 1
+                    if brk is not None and k >= brk:
+                        break
+            except BaseException:
+                # (the abandoned generator has been finalised by now: the loop's iterator is gone)
+                self.emit(label, 'fabort')
+                raise
+            finally:
+                close_unstarted(coros)
+            self.emit(label, 'fend')
         elif h == 'nestedrun':
             from usim import run
             progs = s[2:]
@@ -564,8 +607,7 @@ class Interp:
         try:
             return await collect(*coros)
         finally:
-            for c in coros:
-                c.close()
+            close_unstarted(coros)
             _ = base
 
     def until_desc(self, n):
@@ -676,6 +718,9 @@ class Interp:
             outcome = 'out-of-fuel'
         except BaseException as e:    # noqa
             outcome = 'crash ' + ','.join(str(x) for x in self.exn_code(e))
+            if os.environ.get('VERIF_TRACEBACK'):
+                import traceback
+                traceback.print_exc()
         finally:
             pass
         if outcome == 'ok':
